@@ -299,6 +299,8 @@ POT_SCRIPTS = {
     "read_in_expr": HDR + 'pot = Potentiometer("A3")\nwhile True:\n    mon.write(pot.read() + pot.read())\n',
     "read_in_cond": HDR + 'pot = Potentiometer("A1")\nwhile True:\n    if pot.read() > 500:\n        mon.write(pot.read())\n    else:\n        mon.write(0)\n',
     "two_pots": HDR + 'p = Potentiometer("A0")\nq = Potentiometer("A2")\nwhile True:\n    mon.write(p.read())\n    mon.write(q.read())\n    mon.write(p.read())\n',
+    "tuple_two_reads": HDR + 'pot = Potentiometer("A0")\nwhile True:\n    first, second = pot.read(), pot.read()\n    mon.write(second - first)\n',
+    "tuple_two_reads_declared": HDR + 'pot = Potentiometer("A0")\nfirst = 0\nsecond = 0\nwhile True:\n    first, second = pot.read(), pot.read()\n    mon.write(second - first)\n',
     "kw_pin": HDR + 'pot = Potentiometer(pin="A4")\nwhile True:\n    mon.write(pot.read())\n',
     "read_in_loop": HDR + 'pot = Potentiometer("A0")\nwhile True:\n    for i in range(2):\n        mon.write(pot.read())\n',
     "read_in_fn": HDR + 'pot = Potentiometer("A0")\ndef level():\n    return pot.read() // 4\nwhile True:\n    mon.write(level())\n    mon.write(level())\n',
